@@ -123,14 +123,21 @@ func (cw *CobsWrapper) Read(b []byte) (int, error) {
 			}
 		}
 
-		// write leftover bytes to beginning of buffer
-		bBuf := bytes.NewBuffer(b)
-		c, _ := bBuf.Write(cw.readLeftover.Bytes())
+		// no complete packet in the leftover bytes, move them to the
+		// beginning of the read buffer and continue reading
+		c, _ := cw.readLeftover.Read(b)
 
 		cur += c
 	}
 
+	// the bytes moved from leftover may already contain the start of a packet
 	foundStart := false
+	for i := 0; i < cur; i++ {
+		if b[i] != 0 {
+			foundStart = true
+			break
+		}
+	}
 
 	for {
 		c, err := cw.dev.Read(b[cur:])
